@@ -250,6 +250,8 @@ class SK(object):
             return Py(lambda sk, node, *a, _b=b, _n=e.attr: getattr(_b, _n)(*a), 'dict.' + e.attr)
         if isinstance(b, list) and e.attr in ('append', 'extend', 'insert', 'pop', 'reverse', 'index', 'count', 'sort'):
             return Py(lambda sk, node, *a, _b=b, _n=e.attr: getattr(_b, _n)(*a), 'list.' + e.attr)
+        if isinstance(b, set) and e.attr in ('add', 'update', 'discard', 'remove', 'clear'):
+            return Py(lambda sk, node, *a, _b=b, _n=e.attr: getattr(_b, _n)(*a), 'set.' + e.attr)
         if isinstance(b, str) and e.attr in ('format', 'join'):
             return Py(lambda sk, node, *a, **k: '', 'str')
         if b is None:
